@@ -1100,6 +1100,12 @@ func (fx *FnExec) execUnOp(st *State, in *ssa.UnOp) {
 	case token.ARROW:
 		// channel receive
 		fx.blockingPoint(st, "recv", in.Pos(), []string{xv.L[0]})
+		if key := fieldKeyOf(in.X); key != "" {
+			if _, co := e.w.spec.CloseOnly[key]; co {
+				// nobody sends on a close-only channel: the receive returns only once it is closed
+				e.assume(st, sel(e.heapGet(st, e.keyChanClosed()), xv.L[0]))
+			}
+		}
 		if in.CommaOk {
 			fx.setReg(st, in, &Val{Tup: []*Val{e.freshVal(st, "recv", in.X.Type().Underlying().(*types.Chan).Elem()), e.freshVal(st, "ok", types.Typ[types.Bool])}})
 		} else {
